@@ -365,3 +365,49 @@ def planted_sparse_lp(rng, qp=False, with_q=False):
     pr.pl = {"x": xs, "s": ss, "y": ys, "z": zs, "p": ppl, "d": dpl, "margin_s": cone.margin(ss, d),
              "margin_z": cone.margin(zs, d), "sv": [s1, s2, smax], "structurally-sparse": True}
     return pr
+
+
+def zero_some_h(rng, pr):
+    """Make some entries of the 'q' / 's' parts of h exactly zero (so that a sparse copy of hq[k] / hs[k] has structural
+    zeros and len() != number of rows) on a planted strictly feasible LP, keeping the planted points strictly feasible:
+    s* := s* + delta + t*e with delta chosen so that h = G x* + s* vanishes at the chosen positions and t > ||delta||.
+    Returns the number of zeroed entries (0 = problem unchanged)."""
+    if pr.P is not None or "x" not in getattr(pr, "pl", {}) or "s" not in pr.pl or "z" not in pr.pl:
+        return 0
+    d = pr.dims
+    if not (d.q or d.s):
+        return 0
+    xs, ss = pr.pl["x"], cone.symmetrize(np.array(pr.pl["s"], dtype=float), d)
+    gx = pr.G @ xs
+    delta = np.zeros(d.N)
+    pos = []
+    ind = d.l
+    for m in d.q:
+        for i in range(1, m):
+            if rng.random() < 0.5:
+                pos.append(ind + i)
+        ind += m
+    for m in d.s:
+        for j in range(m):
+            for i in range(j + 1, m):
+                if rng.random() < 0.5:
+                    pos.append(ind + j * m + i); pos.append(ind + i * m + j)
+        ind += m * m
+    if not pos:
+        return 0
+    for k in pos:
+        delta[k] = -(gx[k] + ss[k])
+    t = float(np.linalg.norm(delta)) * 1.05 + 0.1
+    snew = ss + delta + t * cone.identity(d)
+    if cone.margin(snew, d) < 0.05:
+        return 0
+    h = gx + snew
+    for k in pos:
+        h[k] = 0.0
+    snew = h - gx
+    pr.h = h
+    pr.pl["s"] = snew
+    if "margin_s" in pr.pl:
+        pr.pl["margin_s"] = cone.margin(snew, d)
+    pr.pl["d"] = float(-cone.sdot(h, pr.pl["z"], d) - pr.b @ pr.pl["y"])
+    return len(pos)
